@@ -94,6 +94,8 @@ func peer(name string, sc Script, in, out *vio.Pipe, events *[]string) {
 				hsName = name + "-impostor"
 			case "wrong-version":
 				ver++
+			case "older-version":
+				ver--
 			case "no-feature":
 				features = nil
 			}
@@ -139,6 +141,14 @@ func peer(name string, sc Script, in, out *vio.Pipe, events *[]string) {
 		switch step.Fault {
 		case "oversized-length":
 			out.Write([]byte{0x7f, 0xff, 0xff, 0xff, 0})
+			die()
+			return
+		case "oversized-length-msb":
+			out.Write([]byte{0x80, 0, 0, 0, 0})
+			die()
+			return
+		case "oversized-length-max":
+			out.Write([]byte{0xff, 0xff, 0xff, 0xff, 0})
 			die()
 			return
 		case "truncate":
